@@ -114,6 +114,30 @@ func InfluxUnsigned(e FlatEntry) bool {
 	return e.Kind == KindMetric && e.Style&1 != 0 && e.Style&4 != 0 && e.Val == float64(int64(e.Val)) && e.Val >= 0 && e.Val < 1e15
 }
 
+// InfluxMergesWithNext reports whether the encoder writes chunk i and chunk i+1 as lines
+// with two fields: both metric chunks, chunk i has Style bit 3, same measurement and tags,
+// different field keys, same timestamps.
+func InfluxMergesWithNext(chunks []FlatChunk, i int) bool {
+	if i+1 >= len(chunks) {
+		return false
+	}
+	c, n := chunks[i], chunks[i+1]
+	if c.Style&8 == 0 || HasLabel(c.Labels, "__name__") < 0 || HasLabel(n.Labels, "__name__") < 0 {
+		return false
+	}
+	m, field, tags := influxSplit(c.Labels)
+	m2, f2, t2 := influxSplit(n.Labels)
+	if m2 != m || f2 == field || SanitizeName(f2) == SanitizeName(field) || CanonKey(t2) != CanonKey(tags) || len(n.Entries) != len(c.Entries) || len(c.Entries) == 0 {
+		return false
+	}
+	for k := range n.Entries {
+		if n.Entries[k].Ts != c.Entries[k].Ts || n.Entries[k].Kind != KindMetric || c.Entries[k].Kind != KindMetric {
+			return false
+		}
+	}
+	return true
+}
+
 // EncodeInflux serialises the body. Adjacent metric chunks with the same measurement,
 // tags and timestamps are written as one line with several fields when the first has
 // Style bit 3.
@@ -139,21 +163,9 @@ func EncodeInflux(b Body) []byte {
 			}
 		}
 		var merged *FlatChunk
-		if isMetric && c.Style&8 != 0 && ci+1 < len(chunks) {
-			n := chunks[ci+1]
-			m2, f2, t2 := influxSplit(n.Labels)
-			if m2 == m && f2 != field && SanitizeName(f2) != SanitizeName(field) && CanonKey(t2) == CanonKey(tags) && len(n.Entries) == len(c.Entries) && len(c.Entries) > 0 {
-				same := true
-				for i := range n.Entries {
-					if n.Entries[i].Ts != c.Entries[i].Ts || n.Entries[i].Kind != KindMetric {
-						same = false
-					}
-				}
-				if same {
-					merged = &n
-					ci++
-				}
-			}
+		if InfluxMergesWithNext(chunks, ci) {
+			merged = &chunks[ci+1]
+			ci++
 		}
 		for i, e := range c.Entries {
 			sb.WriteString(head.String())
